@@ -12,7 +12,7 @@ import (
 
 var hostPool = []string{"a.test", "shop.example", "hop.example", "s.test", "x", "sx", "a.test1", "a.b.test", "b.test", "[::1]", "[2001:db8::1]", "127.0.0.1", "xn--nxasmq6b.test"}
 var segPool = []string{"p", "P", "a", "ab", "a.b", "a-b", "~u", "a%2Fb", "a%2fb", "a%3Fb", "%C3%A9", "%E9", "a%20b", "a;b", "a:b", "a@b", "a=b", "80", "s"}
-var queryPool = []string{"", "x=1", "x=1&y=2", "y=2&x=1", "q=%7e", "q=~", "q=%E9", "q=%C3%A9", "q=a%2Fb", "q=a/b", "q=%3F", "q=?", "X=1", "x", "x=", "80"}
+var queryPool = []string{"", "x=1", "x=1&y=2", "y=2&x=1", "q=%7e", "q=~", "q=%E9", "q=%C3%A9", "q=a%2Fb", "q=a/b", "q=%3F", "q=?", "X=1", "x", "x=", "80", "q=\xe9", "q=caf\xe9&x=\xff"}
 
 type urlParts struct {
 	scheme, host, port string
